@@ -1,9 +1,11 @@
+import SygmaModel.Drv.C08
 import SygmaModel.Drv.C14
 import SygmaModel.Drv.C18
 namespace Sygma.Drv
 
 def dispatch (prop op : String) (args : List String) (impl : String) : Option Verdict :=
   match prop with
+  | "C08" => C08.handle op args impl
   | "C14" => C14.handle op args impl
   | "C18" => C18.handle op args impl
   | _ => none
